@@ -3,7 +3,7 @@
 EXTENDS Integers, TLC
 CONSTANT Level
 Regions == {"below", "at_lower", "inside", "at_upper", "above"}
-Ranges  == {"narrow", "wide", "touch_min", "touch_max", "single_spacing"}
+Ranges  == {"narrow", "wide", "touch_min", "touch_max", "single_spacing", "zero_bound"}
 Decs    == IF Level > 1 THEN {6, 8, 18} ELSE {6, 18}
 Classes == {"zero", "one_wei", "typical", "huge"}      \* 0, 1 wei, ~1..1e4 tokens, 1e12 tokens
 Cases == [region : Regions, range : Ranges, d0 : Decs, d1 : Decs, c0 : Classes, c1 : Classes]
